@@ -102,6 +102,33 @@ pub fn adf_query(id: &str, qid: &str, q: &[String], adf: &mut Adf, _parser: &Adf
             let ac_before = handles_string(&adf.ac);
             #[cfg(adf_obdd_verif)]
             let audit_before = adf.bdd.verif_audit();
+            if q[1] == "live" {
+                // the repair step applied to the live object (no export / import)
+                adf.fix_import();
+                #[allow(unused_mut)]
+                let mut audit = String::new();
+                #[cfg(adf_obdd_verif)]
+                {
+                    let pick = |a: &str, key: &str| a.lines().find(|l| l.starts_with(key)).unwrap_or("").to_string();
+                    let audit_after = adf.bdd.verif_audit();
+                    audit = format!(
+                        " uniq_equal={} vdeps_equal={}",
+                        (pick(&audit_before, "uniq") == pick(&audit_after, "uniq")) as u8,
+                        (pick(&audit_before, "vdeps") == pick(&audit_after, "vdeps")) as u8
+                    );
+                }
+                writeln!(
+                    out,
+                    "{} {} roundtrip live nodes_equal={} ac_equal={}{}",
+                    id,
+                    qid,
+                    (before == crate::table_string(&adf.bdd)) as u8,
+                    (ac_before == handles_string(&adf.ac)) as u8,
+                    audit
+                )
+                .unwrap();
+                return;
+            }
             let new_adf: Adf = match q[1].as_str() {
                 "json" | "jsonnofix" => {
                     let s = serde_json::to_string(&*adf).unwrap();
